@@ -247,6 +247,6 @@ fn c08_target_cutoff(directed: bool, mask: u8, src: usize, weighted: bool, wmode
     core::mem::forget(edges);
 }
 
-crate::vharness! { unwind = 8; fn c04_probe_one_sym() { c04_all_paths(true, 0b0001011, 0, true, 0) } }
-crate::vharness! { unwind = 8; fn c04_probe_const() { c04_all_paths(true, 0b0001011, 0, true, 254) } }
-
+// Not registered in MANIFEST.json (C04 / C08 are not applicable: DESIGN.md M11); kept so that the
+// measurement can be repeated with `./check C04 --tier quick`.
+include!("gen_dijkstra_ac.rs");
